@@ -146,6 +146,12 @@ fn cmd_copy(args: &[String]) -> anyhow::Result<()> {
             });
             let up: Arc<dyn StatusUpdater> = rec.clone();
             let r = drv.copy(sources, &dest, up);
+            // copy() may return (with an error) while other workers are still finishing queued work;
+            // the stream has ended once every clone of the updater is gone.
+            let deadline = Instant::now() + Duration::from_secs(cfgv.get("drain_timeout_s").and_then(|x| x.as_u64()).unwrap_or(40));
+            while Arc::strong_count(&rec) > 1 && Instant::now() < deadline {
+                std::thread::sleep(Duration::from_millis(5));
+            }
             let holders = Arc::strong_count(&rec);
             for (n, k, v, e) in rec.log.lock().unwrap().iter() {
                 println!("{}", json!({"seq": n, "u": k, "n": v.to_string(), "err": e}));
